@@ -10,6 +10,7 @@ func init() {
 	vRegister("VH_C07_ReuseKey", VH_C07_ReuseKey)
 	vRegister("VH_C07_Drop", VH_C07_Drop)
 	vRegister("VH_C07_Invalidate", VH_C07_Invalidate)
+	vRegister("VH_C07_SweepRoutes", VH_C07_SweepRoutes)
 }
 
 func vhNoSeparators(s string) { vAssume(vNoneOf(s, ",{}")) }
@@ -92,3 +93,54 @@ func VH_C07_Drop() { VH_C06_ClientResume() }
 //
 //verif:unwind 8
 func VH_C07_Invalidate() { VH_C06_Lifecycle() }
+
+// VH_C07_SweepRoutes: expiring a session removes every route to it, however the
+// expiry is noticed. A session in an arbitrary expiry state is routed under
+// ("", <a:1>, 7); it is then possibly looked up (a lookup of an expired session
+// drops it from the table lazily), and the expiry sweep runs. Afterwards no
+// command mapping leads to an id the table does not hold, and when the same id is
+// established again under another tag (claim and inherited session ids are
+// deterministic) the old route does not lead to the new session.
+//
+//verif:unwind 8
+func VH_C07_SweepRoutes() {
+	vClockWindow(int64(time.Minute))
+	base := time.Now()
+	cache := NewSessionCache()
+	s0 := vhMakeSession("s0", base, 3)
+	s1 := vhMakeSession("s1", base, 3)
+	vAssume(s0.id != s1.id)
+	cache.Store(s0.entry)
+	cache.Store(s1.entry)
+	cache.MapCommand("", "<a:1>", "7", s0.id)
+	cache.MapCommand("t", "<a:1>", "8", s1.id)
+	switch vChoice("noticed_by", 4) {
+	case 0:
+	case 1:
+		cache.LookupNonExpired(s0.id)
+	case 2:
+		cache.Lookup(s0.id)
+	case 3:
+		cache.LookupByCommand("", "<a:1>", "7")
+	}
+	n := cache.InvalidateExpired()
+	vAssert(n <= 2, "sweep-count")
+	for _, sid := range cache.commandMap {
+		_, ok := cache.sessions[sid]
+		vAssert(ok, "after-the-sweep-every-mapping-leads-to-a-stored-session")
+	}
+	if s0.expired {
+		vCover("expired-session-swept")
+		again := NewSessionEntry(s0.id, "<b:2>", &KeyInfo{Data: []byte("0123456789abcdef0123456789abcdef"), Protocol: "AES"}, s0.entry.Policy(), base.Add(time.Hour), 0, "t2")
+		cache.Store(again)
+		cache.MapCommand("t2", "<b:2>", "7", s0.id)
+		_, old := cache.LookupByCommand("", "<a:1>", "7")
+		vAssert(!old, "route-of-an-expired-session-does-not-lead-to-its-successor")
+		_, cur := cache.LookupByCommand("t2", "<b:2>", "7")
+		vAssert(cur, "successor-reachable-by-its-own-route")
+	} else {
+		vCover("live-session-kept")
+		_, ok := cache.LookupByCommand("", "<a:1>", "7")
+		vAssert(ok, "live-session-still-routed")
+	}
+}
